@@ -561,6 +561,7 @@ type ReplayFile struct {
 	Trace     []string  `json:"event_trace"`
 	// Prelude: scenarios executed earlier in the same process, needed when the
 	// violation depends on state the library itself kept between them.
+	Flaky       string      `json:"reproduces,omitempty"` // "k/n" when the violation is timing dependent
 	Prelude     []*Scenario `json:"prelude,omitempty"`
 	PreludeNote string      `json:"prelude_note,omitempty"`
 }
@@ -614,6 +615,22 @@ func reportViolation(p *PropDef, seed uint64, tier string, wv WorkerViol) string
 			rf.Prelude = pre
 			rf.PreludeNote = "the violation appears only after the prelude scenarios ran in the same process: the library keeps mutable state outside the objects passed in"
 			rf.Detail += "\n(depends on library state left behind by earlier operations in the same process; replay runs the prelude first)"
+			writeJSON(path, rf)
+			return path
+		}
+		// Last resort: the library may behave differently from run to run because it starts goroutines of
+		// its own (the one scheduler the simulator does not own). Re-execute the scenario a number of times.
+		hits := 0
+		const tries = 30
+		for i := 0; i < tries; i++ {
+			if hasViolation(runScenario(sc), id) != nil {
+				hits++
+			}
+		}
+		if hits > 0 {
+			rf.Scenario = sc
+			rf.Flaky = fmt.Sprintf("%d/%d", hits, tries)
+			rf.Detail += fmt.Sprintf("\n(not deterministic: reproduced in %d of %d re-executions of the same scenario in one process - the library's behaviour depends on real goroutine scheduling, which the simulator does not own; replay re-executes up to %d times)", hits, tries, tries)
 			writeJSON(path, rf)
 			return path
 		}
@@ -999,6 +1016,12 @@ func replayMain(path string) int {
 		fmt.Printf("  prelude scenario %d (index %d): %d events\n", i, pre.Index, pr.Events)
 	}
 	res := runScenario(rf.Scenario)
+	if rf.Flaky != "" {
+		for i := 1; i < 30 && hasViolation(res, id) == nil; i++ {
+			res = runScenario(rf.Scenario)
+		}
+		fmt.Printf("  (timing-dependent finding, recorded as reproducing %s)\n", rf.Flaky)
+	}
 	for _, t := range res.Trace {
 		fmt.Println("  event:", t)
 	}
